@@ -36,13 +36,16 @@ CONTRACTS["programs:Program.get_prop_covered"] = dict(
 CONTRACTS["programs:Program.get_prop_covered"]["ensures"].append(("C11.monotone_in_capacity", "result[0] <= result_2[0]"))
 
 _cap_stubs = {"self.unit_cost.interpolate(tvec, method='previous')": "UC", "self.is_one_off": "ONE_OFF", "self.capacity_constraint.has_data": "HAS_CC",
-              "self.capacity_constraint.interpolate(tvec, method='previous')": "CC", "'/year' in self.capacity_constraint.units": "CC_PER_YEAR"}
+              "self.capacity_constraint.interpolate(tvec, method='previous')": "CC", "'/year' in self.capacity_constraint.units": "CC_PER_YEAR",
+              # the unit-cost units are what is_one_off is defined by (Program.is_one_off): a test of them anywhere in the function has
+              # the value  not ONE_OFF  (assumed through the precondition below), it is independent of the capacity-constraint units
+              "'/year' in self.unit_cost.units": "UC_PER_YEAR", "'/year' not in self.unit_cost.units": "ONE_OFF"}
 CONTRACTS["programs:Program.get_capacity"] = dict(
     schema=schema,
     params={"tvec": "arr1:1", "spending": "arr1:1", "dt": "real"},
-    ghost_params={"UC": "arr1:1", "ONE_OFF": "bool", "HAS_CC": "bool", "CC": "arr1:1", "CC_PER_YEAR": "bool"},
+    ghost_params={"UC": "arr1:1", "ONE_OFF": "bool", "HAS_CC": "bool", "CC": "arr1:1", "CC_PER_YEAR": "bool", "UC_PER_YEAR": "bool"},
     stubs=_cap_stubs,
-    requires=["spending[0] >= 0", "UC[0] > 0", "dt > 0", "CC[0] >= 0"],
+    requires=["spending[0] >= 0", "UC[0] > 0", "dt > 0", "CC[0] >= 0", "UC_PER_YEAR == (not ONE_OFF)"],
     ensures=[
         ("C11.capacity_nonneg", "result[0] >= 0"),
         ("C11.capacity_is_spending_over_unit_cost", "implies(not HAS_CC, result[0] * UC[0] == spending[0] * (dt if ONE_OFF else 1))"),
